@@ -27,7 +27,10 @@ const DIRECTED_G: &[&str] = &[
 fn garbage(rng: &mut Rng, kind: ItemKind) -> Vec<String> {
     if rng.chance(1, 60) {
         // a very long malformed member (hundreds of recovered errors in one member)
-        let n = rng.range(90, 320);
+        let n = match crate::vocab::threshold(rng, 1200) {
+            Some(t) if t > 40 && rng.chance(1, 3) => t + rng.below(30),
+            _ => rng.range(90, 320),
+        };
         let w = rng.pick_str(&["int", "x", "in", "String", "12", "@A", "[", "List <"]).to_string();
         let alt = rng.pick_str(&["y", "void", ")", "=", "\"s\"", "."]).to_string();
         let mut out = Vec::new();
@@ -51,6 +54,12 @@ fn garbage(rng: &mut Rng, kind: ItemKind) -> Vec<String> {
         out.push(lit);
     }
     while out.len() < n {
+        if rng.chance(1, 12) {
+            if let Some(w) = crate::vocab::ident(rng) {
+                out.push(w);
+                continue;
+            }
+        }
         let w = rng.pick_str(mutate::VOCAB);
         for t in mutate::token_texts(w) {
             if t == ";" || t == "{" || t == "}" {
